@@ -73,6 +73,7 @@ def register4(E):
             if e.branch(lt): return 'Less'
             return 'Equal' if e.branch(a == b) else 'Greater'
         ty = getattr(a, 'ty', None)
+        if isinstance(a, Agg) and ty in ('Reverse', 'std::cmp::Reverse', 'cmp::Reverse', 'core::cmp::Reverse') and len(a.f) == 1: return cmp3(e, b.f[0], a.f[0], signed)
         if isinstance(a, (Agg, Enum)) and ty and ty not in ('tup', 'arr', 'Option', 'Result', 'unit'):
             f = e._find_impl('cmp', 'Ord', ty, 2) or e._find_impl('partial_cmp', 'PartialOrd', ty, 2)
             if f is not None:
